@@ -48,9 +48,13 @@ theorem get_mem (s : St) (o v : Obj) (h : s.get o = some v) : (o, v) ∈ s.value
 
 def Inv (w : World) (s : St) : Prop := Good w s ∧ PendingOK w s
 
-/-- a step never clears the `foreign` flag and, in runs that end with the flag clear, preserves the invariant -/
+/-- neither of the two events happened: no reference evaluated in a foreign context (F-C02-47), no callback fired
+    for a reference whose own target differs from the visitor's (#29) -/
+def Quiet (s : St) : Prop := s.foreign = false ∧ s.tclash = false
+
+/-- a step never clears the event flags and, in runs that end with both flags clear, preserves the invariant -/
 def Pres (w : World) (f : St → Res) : Prop :=
-  ∀ s s', f s = .ok s' → s'.foreign = false → s.foreign = false ∧ (Inv w s → Inv w s')
+  ∀ s s', f s = .ok s' → Quiet s' → Quiet s ∧ (Inv w s → Inv w s')
 
 theorem pres_foldRes (w : World) (f : Nat → St → Res) (hf : ∀ k, Pres w (f k)) :
     ∀ ks, Pres w (foldRes f ks)
@@ -67,26 +71,27 @@ theorem pres_foldRes (w : World) (f : Nat → St → Res) (hf : ∀ k, Pres w (f
     | err _ => simp [hk] at h
     | outOfFuel => simp [hk] at h
 
-/-- the step that runs the backtrack callbacks: this is where `TextIsGlobal` is needed -/
-theorem unvisit_inv (w : World) (hT : TextIsGlobal w) (t : Text) (o : Obj) (n : Node) (v : Option Obj) (s s' : St)
-    (hn : w.node o = some n) (hr : n.ref = some t)
-    (hi : Inv w s)
+/-- the step that runs the backtrack callbacks: a callback that fires while `tclash` stays clear belongs to a
+    reference whose own one-step target is the visitor's -/
+theorem unvisit_inv (w : World) (t : Text) (n : Node) (tg : Option (Loc × Obj)) (v : Option Obj) (s s' : St)
+    (hi : Inv w s) (htg : tg = w.target n.home t n.kind)
     (hv : ∀ v', v = some v' → ∃ cx' tgt tn f, w.target n.home t n.kind = some (cx', tgt) ∧ w.node tgt = some tn ∧
             tn.kind = n.kind ∧ designates w f tgt = some v')
-    (h : unvisit w n.kind t v s = .ok s') : s'.foreign = s.foreign ∧ Inv w s' := by
+    (h : unvisit w n.kind t tg v s = .ok s') (hq : s'.tclash = false) : Inv w s' := by
   obtain ⟨hg, hp⟩ := hi
   unfold unvisit at h
   cases v with
   | none =>
     simp only [Res.ok.injEq] at h; subst h
-    refine ⟨rfl, hg, ?_⟩
+    refine ⟨hg, ?_⟩
     intro t' m hm
     simp only [List.mem_filter] at hm
     exact hp t' m hm.1
   | some v' =>
     simp only [Res.ok.injEq] at h; subst h
+    simp only [Bool.or_eq_false_iff] at hq
     obtain ⟨cx', tgt, tn, f, ht, htn, hk, hd⟩ := hv v' rfl
-    refine ⟨rfl, ?_, ?_⟩
+    refine ⟨?_, ?_⟩
     · intro a b hab
       simp only [List.mem_append, List.mem_map, List.mem_filter] at hab
       rcases hab with hab | ⟨p, ⟨⟨hpm, hpt⟩, hfit⟩, hpe⟩
@@ -98,12 +103,31 @@ theorem unvisit_inv (w : World) (hT : TextIsGlobal w) (t : Text) (o : Obj) (n : 
         obtain ⟨nm, hnm, hrm⟩ := hp _ _ hpm
         have hkm : nm.kind = n.kind := by
           simpa [kindOf, hnm] using hfit
-        have htm : w.target nm.home pt n.kind = some (cx', tgt) := by
-          rw [← hkm, hT pm o nm n pt hnm hn hrm hr hkm]; exact ht
-        exact ⟨f + 1, by simp [designates, hnm, hrm, hkm, htm, htn, hk, hd]⟩
+        -- the callback of `pm` fired and `tclash` stayed clear
+        have hsame : homeTarget w pt pm = tg := by
+          have hall := hq.2
+          rw [List.any_eq_false] at hall
+          have := hall (pt, pm) (by simp only [List.mem_filter]; exact ⟨⟨hpm, by simp⟩, hfit⟩)
+          simpa using this
+        have htm : w.target nm.home pt nm.kind = some (cx', tgt) := by
+          have : homeTarget w pt pm = w.target nm.home pt nm.kind := by simp [homeTarget, hnm]
+          rw [← this, hsame, htg]; exact ht
+        have hk' : tn.kind = nm.kind := by rw [hk, hkm]
+        exact ⟨f + 1, by simp [designates, hnm, hrm, htm, htn, hk', hd]⟩
     · intro t' m hm
       simp only [List.mem_filter] at hm
       exact hp t' m hm.1
+
+theorem unvisit_quiet (w : World) (k : Kind) (t : Text) (tg : Option (Loc × Obj)) (v : Option Obj) (s s' : St)
+    (h : unvisit w k t tg v s = .ok s') (hq : Quiet s') : Quiet s := by
+  unfold unvisit at h
+  cases v with
+  | none => simp only [Res.ok.injEq] at h; subst h; exact hq
+  | some v =>
+    simp only [Res.ok.injEq] at h; subst h
+    obtain ⟨h1, h2⟩ := hq
+    simp only [Bool.or_eq_false_iff] at h2
+    exact ⟨h1, h2.1⟩
 
 /-- a copy (of a reference) designates what its original designates -/
 theorem designates_copy (w : World) (hC : CopyOK w) (c r : Obj) (n : Node) (hn : w.node c = some n)
@@ -156,20 +180,19 @@ theorem pres_loadDoc (w : World) (rs : Loc → Nat → St → Res) (hrs : ∀ l 
     · obtain ⟨h1, h2⟩ := pres_foldRes w (rs l) (hrs l) (w.roots l) _ s' h hfl
       exact ⟨h1, fun hi => h2 ⟨by simpa [Good] using hi.1, by simpa [PendingOK] using hi.2⟩⟩
 
-theorem finish_inv (w : World) (hT : TextIsGlobal w) (rs : Nat → St → Res) (hrs : ∀ k, Pres w (rs k))
-    (t : Text) (o : Obj) (n : Node) (rw : Bool) (v : Option Obj) (s s' : St)
+theorem finish_inv (w : World) (rs : Nat → St → Res) (hrs : ∀ k, Pres w (rs k))
+    (t : Text) (tg : Option (Loc × Obj)) (o : Obj) (n : Node) (rw : Bool) (v : Option Obj) (s s' : St)
     (hn : w.node o = some n) (hr : n.ref = some t)
-    (h : finish w rs n.kind t o rw v s = .ok s') (hfl : s'.foreign = false) :
-    s.foreign = false ∧ (Inv w s →
+    (h : finish w rs n.kind t tg o rw v s = .ok s') (hfl : Quiet s') :
+    Quiet s ∧ (Inv w s → tg = w.target n.home t n.kind →
       (∀ v', v = some v' → ∃ cx' tgt tn f, w.target n.home t n.kind = some (cx', tgt) ∧ w.node tgt = some tn ∧
             tn.kind = n.kind ∧ designates w f tgt = some v') → Inv w s') := by
   unfold finish at h
   cases v with
   | none =>
     simp only at h
-    refine ⟨?_, fun hi _ => ?_⟩
-    · unfold unvisit at h; simp only [Res.ok.injEq] at h; subst h; exact hfl
-    · exact (unvisit_inv w hT t o n none s s' hn hr hi (by intro v' hv'; cases hv') h).2
+    refine ⟨unvisit_quiet w _ _ _ _ _ _ h hfl, fun hi htg _ => ?_⟩
+    exact unvisit_inv w t n tg none s s' hi htg (by intro v' hv'; cases hv') h hfl.2
   | some v' =>
     simp only at h
     cases hf : foldRes rs (if rw = true then ((w.node v').map (·.kids)).getD [] else [])
@@ -178,11 +201,9 @@ theorem finish_inv (w : World) (hT : TextIsGlobal w) (rs : Nat → St → Res) (
     | outOfFuel => simp [hf] at h
     | ok s2 =>
       simp only [hf] at h
-      have hfl2 : s2.foreign = false := by
-        unfold unvisit at h
-        simp only [Res.ok.injEq] at h; subst h; exact hfl
+      have hfl2 : Quiet s2 := unvisit_quiet w _ _ _ _ _ _ h hfl
       obtain ⟨h1, h2⟩ := pres_foldRes w rs hrs _ _ s2 hf hfl2
-      refine ⟨h1, fun hi hv => ?_⟩
+      refine ⟨h1, fun hi htg hv => ?_⟩
       obtain ⟨cx', tgt, tn, f, ht, htn, hk, hd⟩ := hv v' rfl
       have hi1 : Inv w { s with value := s.value ++ [(o, v')] } := by
         refine ⟨?_, by simpa [PendingOK] using hi.2⟩
@@ -191,8 +212,8 @@ theorem finish_inv (w : World) (hT : TextIsGlobal w) (rs : Nat → St → Res) (
         rcases hab with hab | ⟨rfl, rfl⟩
         · exact hi.1 a b hab
         · exact ⟨f + 1, by simp [designates, hn, hr, ht, htn, hk, hd]⟩
-      exact (unvisit_inv w hT t o n (some v') s2 s' hn hr (h2 hi1)
-        (by intro v'' hv''; cases hv''; exact ⟨cx', tgt, tn, f, ht, htn, hk, hd⟩) h).2
+      exact unvisit_inv w t n tg (some v') s2 s' (h2 hi1) htg
+        (by intro v'' hv''; cases hv''; exact ⟨cx', tgt, tn, f, ht, htn, hk, hd⟩) h hfl.2
 
 theorem markDone_ok (o : Obj) (r : Res) (s' : St) (h : markDone o r = .ok s') :
     ∃ s4, r = .ok s4 ∧ s' = { s4 with done := s4.done ++ [o] } := by
@@ -217,7 +238,7 @@ theorem pres_markDone (w : World) (o : Obj) (f : St → Res) (hf : Pres w f) : P
   | outOfFuel => simp [hr, markDone] at h
 
 /-- Invariant preservation of the whole resolution, by induction on fuel. -/
-theorem resolve_pres (w : World) (hT : TextIsGlobal w) (hC : CopyOK w) : ∀ fuel cx o, Pres w (resolve w fuel cx o) := by
+theorem resolve_pres (w : World) (hC : CopyOK w) : ∀ fuel cx o, Pres w (resolve w fuel cx o) := by
   intro fuel
   induction fuel with
   | zero => intro cx o s s' h; simp [resolve] at h
@@ -257,7 +278,7 @@ theorem resolve_pres (w : World) (hT : TextIsGlobal w) (hC : CopyOK w) : ∀ fue
             | ok s2 =>
               simp only [hr1] at h
               have hL := pres_loadDoc w (fun l k s => resolve w fuel l k s) (fun l k => ih l k) (w.docOf cx t) _ s2 hr1
-              have key : s2.foreign = false ∧ (cx = n.home → Inv w s2 → Inv w s') := by
+              have key : Quiet s2 ∧ (cx = n.home → Inv w s2 → Inv w s') := by
                 by_cases hE : w.emptyTarget cx t n.kind = true
                 · rw [if_pos hE] at h
                   simp only [markDone, Res.ok.injEq] at h; subst h
@@ -280,18 +301,19 @@ theorem resolve_pres (w : World) (hT : TextIsGlobal w) (hC : CopyOK w) : ∀ fue
                       | ok s3 =>
                         simp only [hres] at h
                         obtain ⟨s4, hfin, rfl⟩ := markDone_ok _ _ _ h
-                        have hfl4 : s4.foreign = false := hfl
-                        obtain ⟨a, b⟩ := finish_inv w hT _ (fun k => ih _ k) t o n _ (valueOf w tgt s3) s3 s4 hn hr hfin hfl4
+                        have hfl4 : Quiet s4 := hfl
+                        obtain ⟨a, b⟩ := finish_inv w _ (fun k => ih _ k) t _ o n _ (valueOf w tgt s3) s3 s4 hn hr hfin hfl4
                         obtain ⟨c, d⟩ := ih cx' tgt s2 s3 hres a
-                        refine ⟨c, fun hcx hi => inv_done w _ _ (b (d hi) (fun v' hv' => ?_))⟩
+                        refine ⟨c, fun hcx hi => inv_done w _ _ (b (d hi) (by rw [← hcx, ht]) (fun v' hv' => ?_))⟩
                         obtain ⟨f, hf⟩ := valueOf_designates w hC tgt tn s3 v' htn (d hi).1 hv'
                         exact ⟨cx', tgt, tn, f, hcx ▸ ht, htn, hk, hf⟩
                     · simp [hk] at h
               obtain ⟨k1, k2⟩ := key
               obtain ⟨l1, l2⟩ := hL k1
               have hsf : s.foreign = false ∧ cx = n.home := by
-                simp only [Bool.or_eq_false_iff, bne_eq_false_iff_eq] at l1
-                exact l1
-              exact ⟨hsf.1, fun hi => k2 hsf.2 (l2 ⟨by simpa [Good] using hi.1, by simpa [PendingOK] using hi.2⟩)⟩
+                have := l1.1
+                simp only [Bool.or_eq_false_iff, bne_eq_false_iff_eq] at this
+                exact this
+              exact ⟨⟨hsf.1, l1.2⟩, fun hi => k2 hsf.2 (l2 ⟨by simpa [Good] using hi.1, by simpa [PendingOK] using hi.2⟩)⟩
 
 end KinModel.Loader
